@@ -165,3 +165,65 @@ pub fn label_numbers(dbg: &str) -> Option<(usize, usize)> {
     let len: usize = len.split(|c: char| !c.is_ascii_digit()).next()?.parse().ok()?;
     Some((off, len))
 }
+
+
+/// Deterministic texts "beyond the small scope" (DESIGN 13.3): (1) every ASCII byte and a few multi-byte characters
+/// directly after / before the bytes the crate treats specially, alone and inside / across an aligned 8-byte word;
+/// (2) filler texts whose length is around a power of two with one interesting fragment placed at the start, the
+/// middle, the end and around every word / block boundary (8, 16, ... 4096).
+pub fn boundary_texts(tier: &str) -> Vec<String> {
+    let mut v = Vec::new();
+    let specials = ["/", "~", "~0", "~1"];
+    let mut chars: Vec<String> = (0u8..128).map(|b| (b as char).to_string()).collect();
+    for c in ["é", "€", "𝄞", "\u{80}", "\u{7ff}", "\u{800}", "\u{ffff}", "\u{10000}", "\u{10ffff}"] {
+        chars.push(c.to_string());
+    }
+    for c in &chars {
+        for s in specials {
+            v.push(format!("{s}{c}"));
+            v.push(format!("{c}{s}"));
+            v.push(format!("/foo{s}{c}bar"));
+            v.push(format!("/abcdefg{s}{c}x/y"));
+        }
+        v.push(format!("/foo/{c}bar"));
+        v.push(format!("/a/{c}"));
+    }
+    let lens: &[usize] = if tier == "thorough" {
+        &[7, 8, 9, 15, 16, 17, 31, 32, 33, 63, 64, 65, 127, 128, 129, 255, 256, 257, 300, 511, 512, 513, 1023, 1024, 1025, 4095, 4096, 4097]
+    } else {
+        &[8, 9, 16, 17, 32, 33, 64, 65, 128, 129, 255, 256, 257, 300, 512, 513, 1025, 4097]
+    };
+    let frags = ["~0", "~1", "~", "/", "~2", "é", "~01", ""];
+    for &l in lens {
+        for f in frags {
+            let mut pos = vec![0usize, 1, l / 2, l.saturating_sub(f.len())];
+            for k in [8usize, 16, 32, 64, 128, 256, 512, 1024, 4096] {
+                if k <= l {
+                    pos.push(k - 2);
+                    pos.push(k - 1);
+                    pos.push(k);
+                }
+            }
+            pos.sort_unstable();
+            pos.dedup();
+            for p in pos {
+                if p + f.len() > l {
+                    continue;
+                }
+                let mut s = String::with_capacity(l + 4);
+                for _ in 0..p {
+                    s.push('a');
+                }
+                s.push_str(f);
+                while s.len() < l {
+                    s.push('b');
+                }
+                v.push(s);
+            }
+        }
+    }
+    v
+}
+
+/// token counts around powers of two / ten, for pointers with many tokens
+pub const MANY: [usize; 14] = [9, 10, 11, 15, 16, 17, 63, 64, 65, 100, 255, 256, 257, 1000];
